@@ -71,6 +71,12 @@ def build(v, tags, roots=None):
         return v
     if "ref" in v:
         return tags[v["ref"]]
+    if "instof" in v:
+        # an instance of an earlier declared data class, built through the public API
+        if "__classes__" not in tags:
+            return _Opaque()
+        cls = tags["__classes__"][v["instof"]]
+        return cls(**build(v["args"], tags, roots))
     if "root" in v:
         try:
             r = roots[v["root"]]
@@ -153,6 +159,10 @@ def children(o, env=None):
     return "other:" + t.__name__, [], []
 
 
+class _Opaque:
+    """stands for an object whose inside the oracle does not look at"""
+
+
 class _Attrs:
     """view of an instance `__dict__` restricted to the declared fields; identity = the real __dict__"""
     def __init__(self, real, view):
@@ -169,8 +179,30 @@ def _skey_obj(o):
     return (3, 0, repr(o))
 
 
-def observe(objs):
-    """labelled trees of several roots; one label per distinct mutable object (first visit order)"""
+def opaque_default_ids(defaults):
+    """id()s of the opaque objects among the declared defaults — a deque, bytearray, data-class instance or other
+    object, found without passing through another opaque object.  copy_value hands such a default out as it is
+    (only list / set / tuple / dict are copied), so every parse that takes the default holds that very object."""
+    cut, seen = set(), set()
+
+    def go(o):
+        c = children(o)
+        if c is None or id(o) in seen:
+            return
+        seen.add(id(o))
+        if c[0] not in NAMED_KINDS:
+            cut.add(id(o))
+            return
+        for x in c[2]:
+            go(x)
+    for d in defaults:
+        go(d)
+    return cut
+
+
+def observe(objs, cut=()):
+    """labelled trees of several roots; one label per distinct mutable object (first visit order);
+    objects whose id() is in `cut` are shown as {"k": "opaque"} without their inside"""
     labels = {}
     keep = []
 
@@ -185,6 +217,8 @@ def observe(objs):
         if isinstance(o, _Attrs):
             ks = sorted(o.view)
             return {"k": "dict", "id": lab(o.real), "keys": ks, "items": [go(o.view[k], depth + 1) for k in ks]}
+        if cut and id(o) in cut:
+            return {"k": "opaque"}
         c = children(o)
         if c is None:
             return o
@@ -259,6 +293,9 @@ def needed_decls(case, k):
         refs = set()
         for f in d["fields"]:
             _type_refs(f["ty"], refs)
+            dv = (f.get("default") or {}).get("val")
+            if isinstance(dv, dict) and "instof" in dv:
+                refs.add(dv["instof"])          # a default that is an instance of an earlier class
         if d.get("ret"):
             _type_refs(d["ret"]["ty"], refs)
         todo += list(refs)
@@ -282,7 +319,7 @@ class Program:
         self.classes = [None] * len(env)
         self.defaults = []          # declared default objects, in declaration order
         self.hold = []
-        self.tags = {}
+        self.tags = {"__classes__": self.classes}
         self.names = [f"K{self.uid}_{k}" for k in range(len(env))]
         self.fpool = None
         self.ropts = {}
@@ -343,6 +380,8 @@ class Program:
         d = f.get("default")
         F = utype.Param if is_func else Field
         kw = {} if is_func else {"no_output": bool(f.get("no_output"))}
+        if f.get("defer") and not is_func:
+            kw["defer_default"] = True
         cons = f.get("cons") or {}
         for name, bound in cons.items():
             if bound is not None:
@@ -355,7 +394,7 @@ class Program:
         how = d.get("how", "val")
         if how == "val":
             self.defaults.append(obj)
-            if (is_func or d.get("plain")) and not f.get("no_output") and not cons:
+            if (is_func or d.get("plain")) and not f.get("no_output") and not cons and not kw.get("defer_default"):
                 return obj, True          # `name: T = obj` — a plain Python default
             return F(default=obj, **kw), True
         if how == "shared":               # a factory that hands out the same object every time
@@ -482,6 +521,76 @@ class Program:
         return cls(**inp)
 
 
+def reaches(src, target, depth=0):
+    """is the object `target` reachable from `src` (identity)?"""
+    if src is target:
+        return True
+    if isinstance(src, _Attrs) or depth > 40:
+        return False
+    c = children(src)
+    if c is None:
+        return False
+    return any(reaches(x.real if isinstance(x, _Attrs) else x, target, depth + 1) for x in c[2])
+
+
+def _plain_hashable(v):
+    """atoms and tuples / frozensets (and their subclasses) of such"""
+    c = children(v)
+    if c is None:
+        return True
+    return c[0] in ("tuple", "fset", "ST", "SF", "NT") and all(_plain_hashable(x) for x in c[2])
+
+
+def do_mutate(op, roots, put=None):
+    """the caller changes an object it reaches through a root, in place; `put` collects the objects of other roots
+    the caller stored into it (aliasing the caller made itself)"""
+    try:
+        if op["root"] >= len(roots) or roots[op["root"]] is _NOROOT:
+            return "skip"
+        o = walk(roots[op["root"]], op["path"])
+    except (IndexError, KeyError, TypeError):
+        return "skip"
+    if isinstance(o, _Attrs):
+        return "skip"             # an instance's own __dict__ is only written through setattr
+    sub = tuple(subclasses().values())
+    if isinstance(o, sub) and not isinstance(o, (list, set, dict)):
+        return "skip"
+    act, val = op["act"], op.get("val")
+    if isinstance(val, dict) and "root" in val:
+        # another object the caller holds (an older root or a part of it)
+        try:
+            if val["root"] >= len(roots) or roots[val["root"]] is _NOROOT:
+                return "skip"
+            val = walk(roots[val["root"]], val.get("path", []))
+        except (IndexError, KeyError, TypeError):
+            return "skip"
+        if isinstance(val, _Attrs):
+            return "skip"
+        if act in ("append", "setkey") and reaches(val, o):
+            return "skip"         # would make the object contain itself
+        if put is not None and act in ("append", "add", "setkey"):
+            put.append(val)
+    plain = type(o).__name__
+    if act == "append" and isinstance(o, list):
+        o.append(val)
+    elif act == "add" and isinstance(o, set):
+        if not _plain_hashable(val):
+            return "skip"         # (a DataClass instance hashes by identity; the histories leave that out)
+        o.add(val)
+    elif act == "setkey" and isinstance(o, dict) and plain in ("dict", "SD"):
+        o[op.get("key", "zz")] = val
+    elif act == "clear" and (isinstance(o, (list, set)) or (isinstance(o, dict) and plain in ("dict", "SD"))):
+        o.clear()
+    elif act == "pop" and isinstance(o, list):
+        if o:
+            o.pop()
+    elif act == "delkey" and isinstance(o, dict) and plain in ("dict", "SD"):
+        o.pop(op.get("key", "zz"), None)
+    else:
+        return "skip"
+    return "ok"
+
+
 def classify_exc(e):
     from utype.utils.exceptions import ParseError
     if isinstance(e, ParseError):
@@ -500,6 +609,7 @@ def run_program(case, only_last=False, only_wrapper=None, only_op=None, post=Non
     only_decls = needed_decls(case, ops[0]["target"]) if (only_last or only_op is not None) else None
     prog = Program(case, only_wrapper=only_wrapper, only_decls=only_decls)
     roots, outs, changed = [], [], []
+    prog.put = []
     try:
         for i, op in enumerate(ops):
             kind = op["op"]
@@ -516,7 +626,9 @@ def run_program(case, only_last=False, only_wrapper=None, only_op=None, post=Non
                 if before != after:
                     changed.append(i)
                 if post is not None:
-                    post[i] = [outs[-1], erase(observe([res])[0])]
+                    # value view of the result; an opaque declared default inside it (handed out as it is by design)
+                    # is not looked into: its content is whatever its holders made of it
+                    post[i] = [outs[-1], erase(observe([res], cut=opaque_default_ids(prog.defaults))[0])]
                 roots.append(inp)
                 roots.append(res)
             elif kind == "declare":
@@ -524,27 +636,23 @@ def run_program(case, only_last=False, only_wrapper=None, only_op=None, post=Non
                     prog.declare(op["decl"])
                 outs.append("ok")
             elif kind == "mutate":
-                try:
-                    o = walk(roots[op["root"]], op["path"]) if roots[op["root"]] is not _NOROOT else None
-                    if isinstance(o, _Attrs):
-                        o = None             # an instance's own __dict__ is only written through setattr
-                    act, val = op["act"], op["val"]
-                    sub = tuple(subclasses().values())
-                    if isinstance(o, sub) and not isinstance(o, (list, set, dict)):
-                        o = None
-                    if act == "append" and isinstance(o, list):
-                        o.append(val)
-                        outs.append("ok")
-                    elif act == "add" and isinstance(o, set):
-                        o.add(val)
-                        outs.append("ok")
-                    elif act == "setkey" and isinstance(o, dict) and type(o).__name__ in ("dict", "SD"):
-                        o[op.get("key", "zz")] = val
-                        outs.append("ok")
-                    else:
-                        outs.append("skip")
-                except (IndexError, KeyError):
+                outs.append(do_mutate(op, roots, prog.put))
+            elif kind == "getattr":
+                o = roots[op["root"]] if op["root"] < len(roots) else _NOROOT
+                c = children(o) if o is not _NOROOT else None
+                if c is None or not c[0].startswith("inst:"):
                     outs.append("skip")
+                    roots.append(_NOROOT)
+                else:
+                    try:
+                        roots.append(getattr(o, op["field"]))
+                        outs.append("ok")
+                    except AttributeError:
+                        outs.append("skip")
+                        roots.append(_NOROOT)
+                    except Exception as e:   # noqa  (a namedtuple as deferred default: copy_value raises TypeError)
+                        outs.append(classify_exc(e))
+                        roots.append(_NOROOT)
             elif kind == "setattr":
                 o = roots[op["root"]] if op["root"] < len(roots) else _NOROOT
                 c = children(o) if o is not _NOROOT else None
@@ -583,9 +691,13 @@ def _wrapper_of(case, op):
 def impl(case):
     post = {}
     outs, roots, changed, prog = run_program(case, post=post)
-    snap = observe(list(prog.defaults) + roots)
+    snap = observe(list(prog.defaults) + roots + list(prog.put))
     nd = len(prog.defaults)
-    res = {"outs": outs, "defaults": snap[:nd], "roots": snap[nd:], "input_changed": changed}
+    res = {"outs": outs, "defaults": snap[:nd], "roots": snap[nd:nd + len(roots)], "input_changed": changed}
+    put = set()
+    for t in snap[nd + len(roots):]:
+        mut_ids(t, put)
+    res["caller_put"] = sorted(put)      # objects the caller itself stored into another root (and what they hold)
     # every call that does not refer to earlier roots is replayed alone on freshly built declarations:
     # same outcome, same value — whatever happened before it in the history (failed calls included)
     res["replayed"] = 0
@@ -601,10 +713,10 @@ def impl(case):
     last = case["ops"][-1]
     if last["op"] == "call" and '"root"' not in json.dumps(last["input"]):     # a probe must not refer to earlier roots
         ow = (last["target"], last.get("wrapper", 0)) if case["env"][last["target"]]["kind"] == "func" else None
-        o2, r2, _, p2 = run_program(case, only_last=True, only_wrapper=ow)
-        s2 = observe(r2)
-        res["probe"] = [outs[-1], erase(res["roots"][-1])]
-        res["fresh_decl"] = [o2[-1], erase(s2[-1])]
+        p2 = {}
+        run_program(case, only_last=True, only_wrapper=ow, post=p2)
+        res["probe"] = post[len(case["ops"]) - 1]
+        res["fresh_decl"] = p2[0]
         # ... and in a fresh interpreter
         if case.get("fresh_interp"):
             env = dict(os.environ)
@@ -627,8 +739,9 @@ def _probe_main():
     case = json.loads(sys.stdin.read())
     last = case["ops"][-1]
     ow = (last["target"], last.get("wrapper", 0)) if case["env"][last["target"]]["kind"] == "func" else None
-    o2, r2, _, _ = run_program(case, only_last=True, only_wrapper=ow)
-    print(json.dumps([o2[-1], erase(observe(r2)[-1])], sort_keys=True))
+    p2 = {}
+    run_program(case, only_last=True, only_wrapper=ow, post=p2)
+    print(json.dumps(p2[0], sort_keys=True))
 
 
 # ------------------------------------------------------------------------------------------------
@@ -648,19 +761,31 @@ def mut_ids(t, acc=None, scope_only=False):
     return acc
 
 
-def in_scope_ids(t, acc=None, with_inst=False):
+def in_scope_ids(t, acc=None, with_inst=False, stop_inst=False):
     """labels of list/set/dict nodes (the kinds the property names) reachable without passing through an opaque object"""
     if acc is None:
         acc = set()
     if isinstance(t, dict):
         k = t["k"].split(":")[0]
-        if k in ("bytearray", "deque", "other", "SQ"):
+        if k in ("bytearray", "deque", "other", "SQ") or (stop_inst and k == "inst"):
             return acc
         if t.get("id") is not None and (k in ("list", "set", "dict", "SL", "SS", "SD") or with_inst and k == "inst"):
             acc.add(t["id"])
         for x in t.get("items", []):
-            in_scope_ids(x, acc, with_inst)
+            in_scope_ids(x, acc, with_inst, stop_inst)
     return acc
+
+
+NAMED_KINDS = ("list", "tuple", "set", "fset", "dict", "SL", "ST", "SS", "SF", "SD", "NT")
+
+
+def prune(t):
+    """value view without the inside of opaque objects (deque, bytearray, instances, other objects)"""
+    if isinstance(t, dict):
+        if t["k"] not in NAMED_KINDS:
+            return {"k": "opaque"}
+        return {"k": t["k"], "keys": t.get("keys", []), "items": [prune(x) for x in t.get("items", [])]}
+    return t
 
 
 def spec_check(case, io):
@@ -683,9 +808,13 @@ def spec_check(case, io):
         return f"(a) call #{i} modified its input object graph"
     ops = case["ops"]
     roots = io["roots"]
-    dflt_ids = set()
+    dflt_ids, dflt_all = set(), set()
     for d in io["defaults"]:
-        in_scope_ids(d, dflt_ids)
+        in_scope_ids(d, dflt_ids, stop_inst=True)
+        mut_ids(d, dflt_all)
+    # an opaque default (deque, bytearray, data-class instance, other object) is handed out as it is by design of
+    # copy_value: it and what is reachable only through it is outside clauses (b)-(d)
+    dflt_opaque = dflt_all - dflt_ids
     # map roots to ops
     r = 0
     root_info = []    # (root index, op index, role)
@@ -697,6 +826,9 @@ def spec_check(case, io):
         elif op["op"] == "copy":
             root_info.append((r, i, "copy"))
             r += 1
+        elif op["op"] == "getattr":
+            root_info.append((r, i, "attr"))
+            r += 1
     inputs_reach = {}
     for ri, oi, role in root_info:
         if roots[ri] is None:
@@ -706,6 +838,7 @@ def spec_check(case, io):
     caller_ids = set()
     for s in inputs_reach.values():
         caller_ids |= s
+    caller_ids |= set(io.get("caller_put", []))
     seen_fresh = {}    # label -> op index that created it
     for ri, oi, role in root_info:
         t = roots[ri]
@@ -724,15 +857,25 @@ def spec_check(case, io):
                 if src.get("id") == t.get("id"):
                     return f"(c) copy() in op #{oi} returned the same object"
             continue
+        own = set()
+        if role == "attr":
+            # reading an attribute gives the stored value (part of the instance) — or, for a deferred default,
+            # an object made for this very access
+            src = roots[ops[oi]["root"]] if ops[oi]["root"] < len(roots) else None
+            own = mut_ids(src) if src is not None else set()
         for l in in_scope_ids(t, with_inst=True):
-            if l in caller_ids:
+            if l in caller_ids or l in dflt_opaque or l in own:
                 continue
             if l in seen_fresh and seen_fresh[l] != oi:
                 return f"(c) results of op #{seen_fresh[l]} and op #{oi} share a mutable object that no caller passed in"
             seen_fresh.setdefault(l, oi)
-    # (d) declared defaults keep their declared value
+    # (d) declared defaults keep their declared value — for the defaults the property names: a default whose top-level
+    # object is a list / set / tuple / dict (or an instance of a subclass of one).  A deque, bytearray, data-class
+    # instance or other object as a default is handed out as it is by design of copy_value, so it — and whatever is
+    # reachable only through it, also when it sits inside a list/dict default — is outside this clause.
     want = []
     tags = {}
+
     def decl_defaults(k):
         for f in case["env"][k]["fields"]:
             d = f.get("default")
@@ -747,8 +890,13 @@ def spec_check(case, io):
         if op["op"] == "declare":
             decl_defaults(op["decl"])
     got = [erase(d) for d in io["defaults"]]
-    if got != want:
-        return "(d) a declared default object changed value during the history"
+    if len(got) != len(want):
+        return "(d) the declared defaults could not be matched up (harness)"
+    for g, w_ in zip(got, want):
+        if not (isinstance(w_, dict) and w_["k"] in NAMED_KINDS):
+            continue
+        if prune(g) != prune(w_):
+            return "(d) a declared default object changed value during the history"
     # (e) history independence
     for i, here, alone in io.get("replay_mismatch", []):
         return (f"(e) call #{i} gives {here[0] if here else None} after the history but {alone[0] if alone else None} "
@@ -1062,6 +1210,7 @@ ROPTS = [
     {"collect_errors": True},
     {"mode": "r"}, {"mode": "w"}, {"mode": "a"},
     {"data_first_search": True}, {"data_first_search": False},
+    {"defer_default": True}, {"defer_default": True, "data_first_search": True},
 ]
 CAP_NAMES = ["aB", "b", "Cc", "D"]
 
@@ -1088,7 +1237,28 @@ def g_case(rng, maxops=7, p_fresh=0.03):
     nenv = rng.choice([1, 1, 2, 2, 3])
     env = []
     main_kind = rng.choice(["schema", "schema", "schema", "dataclass", "func", "func"])
-    for k in range(nenv):
+    chain = rng.random() < 0.06
+    if chain:
+        # an inheritance chain declared up front: Top has a field whose type is a forward reference to a class declared
+        # after the whole chain, Mid(Top) and Sub(Mid) add a field each or nothing.  Which class of the chain is parsed
+        # first varies: resolving the reference is process state (per-parser forward_refs), the outcome must not depend on it
+        nenv, main_kind = 4, rng.choice(["schema", "schema", "dataclass"])
+
+        def simple(nm):
+            ty = fix_set_of(g_type(rng, 1, 0, 0))
+            return {"name": nm, "ty": ty, "default": g_default(rng, ty, tagc) or {"how": "val", "val": 0, "plain": True}}
+        ref = rng.choice([{"opt": {"data": 3}}, {"opt": {"data": 3}}, {"seq": "list", "of": {"data": 3}},
+                          {"opt": {"seq": "list", "of": {"data": 3}}}])
+        top = [{"name": "a", "ty": ref, "default": {"how": "val", "plain": True,
+                                                    "val": None if "opt" in ref else node("list", [], [])}}]
+        if rng.random() < 0.5:
+            top.append(simple("b"))
+        env = [{"kind": main_kind, "dfs": rng.choice([None, None, True, False]), "fields": top},
+               {"kind": main_kind, "dfs": None, "base": 0, "fields": [simple("e")] if rng.random() < 0.6 else []},
+               {"kind": main_kind, "dfs": None, "base": 1, "fields": [simple("g")] if rng.random() < 0.6 else []},
+               {"kind": rng.choice(["schema", "dataclass"]), "dfs": None, "fields": [
+                   {"name": "x", "ty": "int", "default": rng.choice([None, {"how": "val", "val": 0, "plain": True}])}]}]
+    for k in range(0 if chain else nenv):
         kind = main_kind if k == nenv - 1 else rng.choice(["schema", "schema", "dataclass"])
         names_k = CAP_NAMES if (kind != "func" and rng.random() < 0.3) else NAMES
         nf = rng.randint(1, 4)
@@ -1111,6 +1281,17 @@ def g_case(rng, maxops=7, p_fresh=0.03):
                 f["default"] = {"how": "val", "val": None, "plain": True}
             if kind != "func" and rng.random() < 0.15:
                 f["no_output"] = True
+            if kind != "func" and f["default"] is not None and rng.random() < 0.1:
+                f["defer"] = True          # Field(defer_default=True): filled in on attribute access, not by the parse
+            if kind != "func" and k > 0 and rng.random() < 0.04:
+                # a data-class instance as a default (copy_value: a Schema instance comes back as a plain dict,
+                # a DataClass instance as it is) — outside the Lean fragment, inside the oracle sweep
+                ok = [j for j in range(k) if env[j]["kind"] != "func" and not env[j].get("late") and all(
+                          g.get("default") is not None and not _type_refs(g["ty"], set())
+                          and '"NT"' not in json.dumps(g["default"]) for g in env[j]["fields"])]   # (a namedtuple default makes copy_value raise TypeError)
+                if ok:
+                    f["default"] = {"how": rng.choice(["val", "shared"]), "plain": False,
+                                    "val": {"instof": rng.choice(ok), "args": node("dict", [], [])}}
             fields.append(f)
         if kind == "func":
             # Python: parameters without default cannot follow parameters with default
@@ -1170,6 +1351,8 @@ def g_case(rng, maxops=7, p_fresh=0.03):
             continue
         if last or r < 0.55 or not results:
             k = nenv - 1 if rng.random() < 0.8 else rng.randrange(nenv)
+            if chain:
+                k = rng.choice([2, 2, 2, 1, 1, 0, 3])
             if declared_late and rng.random() < 0.35:
                 k = nenv
             if env[k]["kind"] == "func" and k != nenv - 1:
@@ -1217,19 +1400,39 @@ def g_case(rng, maxops=7, p_fresh=0.03):
                     kk.append(dk[0]); ki.append(g_atom(rng))
                 op["input"] = node("tuple", [node("dict", di, dk), node("dict", ki, kk)])
             ops.append(op)
-            results.append((nroots + 1, k, shape))
+            results.append((nroots + 1, k, shape, op.get("ropt") is not None))
             if op["input"].get("k") == "dict":
                 input_roots.append({"root": nroots, "path": []})
             elif op["style"] == "poskw":
                 input_roots.append({"root": nroots, "path": [0]})
             nroots += 2
-        elif r < 0.85:
+        elif r < (0.78 if any(f.get("defer") for x in results if not x[3] for f in fields_of(env, x[1])) else 0.83):
             src = rng.choice(results)
             path, kind = src_path(rng, env, src, deep=True, want_kind=True)
             act = {"list": "append", "set": "add", "dict": "setkey"}.get(kind) or rng.choice(["append", "append", "add", "setkey"])
-            ops.append({"op": "mutate", "root": src[0], "path": path, "act": act, "val": rng.choice([9, 8, "w"]),
+            val = rng.choice([9, 8, "w"])
+            rr = rng.random()
+            if rr < 0.22:
+                act = {"append": rng.choice(["clear", "pop"]), "add": "clear", "setkey": rng.choice(["clear", "delkey"])}[act]
+            elif rr < 0.5:
+                # put another object the caller holds into it: a part of an *older* root (no cycles that way)
+                older = [x for x in results if x[0] < src[0]]
+                if older:
+                    osrc = rng.choice(older)
+                    val = {"root": osrc[0], "path": src_path(rng, env, osrc, deep=True)}
+            ops.append({"op": "mutate", "root": src[0], "path": path, "act": act, "val": val,
                         "key": rng.choice(["zz", "k"])})
-        elif r < 0.93:
+        elif r < 0.9 and any(env[x[1]]["kind"] != "func" and not x[3] for x in results):
+            # attribute access (a deferred default is computed anew on every access)
+            cand = [x for x in results if env[x[1]]["kind"] != "func" and not x[3]]
+            pref = [x for x in cand if env[x[1]]["kind"] == "schema" and any(f.get("defer") for f in fields_of(env, x[1]))]
+            src = rng.choice(pref) if pref and rng.random() < 0.7 else rng.choice(cand)
+            fs = fields_of(env, src[1])
+            dfs_ = [f for f in fs if f.get("defer")]
+            f = rng.choice(dfs_) if dfs_ and rng.random() < 0.7 else rng.choice(fs)
+            ops.append({"op": "getattr", "root": src[0], "field": f["name"]})
+            nroots += 1
+        elif r < 0.94:
             src = rng.choice(results)
             fs = [f for f in fields_of(env, src[1]) if f["ty"] in ("int", "any") and not f.get("cons")]
             if fs and env[src[1]]["kind"] != "func":
@@ -1240,7 +1443,7 @@ def g_case(rng, maxops=7, p_fresh=0.03):
             sch = [x for x in results if env[x[1]]["kind"] == "schema"]
             src = rng.choice(sch or results)
             ops.append({"op": "copy", "root": src[0]})
-            results.append((nroots, src[1], src[2]))
+            results.append((nroots, src[1], src[2], src[3]))
             nroots += 1
     case = {"env": env, "ops": ops}
     # running options whose force_default is a (nested, maybe subclassed) container shared by every parse that uses them
@@ -1281,7 +1484,7 @@ def _drop_ref(ty, k):
 
 def src_path(rng, env, src, deep=False, want_kind=False):
     """a plausible canonical path into a result: [field slot, then into the value the field is expected to hold]"""
-    root, k, inp = src
+    root, k, inp = src[0], src[1], src[2]
     decl = env[k]
     fields = fields_of(env, k)
     if decl["kind"] == "func":
@@ -1471,8 +1674,19 @@ class C19(Check):
             if isinstance(io, dict):
                 st["replayed"] = st.get("replayed", 0) + io.get("replayed", 0)
             for op, o in zip(c["ops"], (io or {}).get("outs", [])):
-                k = f"{op['op']}:{o}"
+                k = op["op"]
+                if k == "mutate":
+                    k += "." + op.get("act", "") + (".object" if isinstance(op.get("val"), dict) else "")
+                k = f"{k}:{o}"
                 st["ops"][k] = st["ops"].get(k, 0) + 1
+            sh = st.setdefault("shapes", {})
+            for name, yes in (("deferred default field", any(f.get("defer") for d in c["env"] for f in d["fields"])),
+                              ("data-class instance default", '"instof"' in json.dumps(c["env"])),
+                              ("inheritance chain with forward reference", len(c["env"]) > 2 and c["env"][2].get("base") == 1),
+                              ("declaration during the history", any(d.get("late") for d in c["env"])),
+                              ("caller stored an object of one root into another", bool(isinstance(io, dict) and io.get("caller_put")))):
+                if yes:
+                    sh[name] = sh.get(name, 0) + 1
             for d in c["env"]:
                 for f in d["fields"]:
                     df = f.get("default")
@@ -1501,6 +1715,7 @@ class C19(Check):
         if st:
             ev["coverage"]["operations_by_outcome"] = dict(sorted(st["ops"].items()))
             ev["coverage"]["declared_default_kinds"] = dict(sorted(st["default_kinds"].items()))
+            ev["coverage"]["program_shapes"] = dict(sorted(st.get("shapes", {}).items()))
             ev["coverage"]["outside_modelled_fragment"] = {"cases": st["unmodelled_cases"], "of": st["cases"],
                                                            "reasons": st["unmodelled"]}
             ev["coverage"]["fresh_interpreter_replays"] = st["fresh_interpreter_replays"]
